@@ -749,6 +749,90 @@ func scriptSection(w *vhlib.Writer, o vhlib.Opts) {
 			}
 		}
 	}
+	// the length counter sampled while calls are parked inside the counter-lag windows (yield points 7 and 8):
+	// judged in Coq against the counter protocol model C04/LenCounter.v (case LenLag)
+	lagSteps := []string{"length counter and number of keys while calls are parked at the yield points 7 / 8"}
+	lagN := 0
+	for _, v := range variants {
+		{
+			m, _ := newMap(v)
+			x := &mapScript{e: &senv{}, m: m}
+			src.want()
+			clock = 0
+			var es []string
+			sample := func(after string, steps ...string) {
+				es = append(es, steps...)
+				keys := 0
+				m.Range(func(k, v int64) bool { keys++; return true })
+				ln := m.Len()
+				lagN++
+				w.Case("LenLag "+vhlib.List(es)+" "+vhlib.Z(int64(ln))+" "+vhlib.Z(int64(keys)), "counter lag skipmap", true, lagSteps,
+					map[string]interface{}{"variant": mapVariants[v], "after": after, "model_steps": append([]string{}, es...), "Len": ln, "keys_in_Range": keys})
+			}
+			sample("nothing")
+			relA := x.park(7, oStore, 1, 10)
+			sample("Store(1) parked published, not counted", "LenCounter.SPublish")
+			x.do(oLoadAndDelete, 1, 0)
+			sample("LoadAndDelete(1)", "LenCounter.SRemove", "LenCounter.SDiscount")
+			x.do(oLoadOrStore, 2, 20)
+			sample("LoadOrStore(2)", "LenCounter.SPublish", "LenCounter.SCount")
+			x.do(oLoad, 2, 0)
+			sample("Load(2)", "LenCounter.SRead")
+			relR := x.park(8, oDelete, 2, 0)
+			sample("Delete(2) parked unlinked, not discounted", "LenCounter.SRemove")
+			x.do(oLazy, 3, 30)
+			sample("LoadOrStoreLazy(3)", "LenCounter.SPublish", "LenCounter.SCount")
+			x.do(oDelete, 2, 0) // absent: no counter update
+			sample("Delete(2) of the absent key", "LenCounter.SRead")
+			release(relA)
+			release(relR)
+			x.e.wg.Wait()
+			sample("both released", "LenCounter.SCount", "LenCounter.SDiscount")
+			unreached += x.e.unreach
+		}
+		{
+			st, _ := newSet(v)
+			x := &setScript{e: &senv{}, s: st}
+			src.want()
+			clock = 0
+			var es []string
+			sample := func(after string, steps ...string) {
+				es = append(es, steps...)
+				keys := 0
+				st.Range(func(k int64) bool { keys++; return true })
+				ln := st.Len()
+				lagN++
+				w.Case("LenLag "+vhlib.List(es)+" "+vhlib.Z(int64(ln))+" "+vhlib.Z(int64(keys)), "counter lag skipset", true, lagSteps,
+					map[string]interface{}{"variant": mapVariants[v], "after": after, "model_steps": append([]string{}, es...), "Len": ln, "keys_in_Range": keys})
+			}
+			x.do(sAddB, 5)
+			sample("AddB(5)", "LenCounter.SPublish", "LenCounter.SCount")
+			relR := x.park(8, sRemoveB, 5)
+			sample("RemoveB(5) parked unlinked, not discounted", "LenCounter.SRemove")
+			relA := x.park(7, sAddB, 1)
+			sample("AddB(1) parked published, not counted", "LenCounter.SPublish")
+			x.do(sAddB, 1) // present: no counter update
+			sample("AddB(1) of the present member", "LenCounter.SRead")
+			x.do(sRemoveB, 1)
+			sample("RemoveB(1)", "LenCounter.SRemove", "LenCounter.SDiscount")
+			release(relR)
+			for t0 := time.Now(); time.Since(t0) < 10*time.Second; { // the remover's record, not the parked adder's
+				x.e.mu.Lock()
+				got := len(x.e.hist)
+				x.e.mu.Unlock()
+				if got >= 4 {
+					break
+				}
+				runtime.Gosched()
+			}
+			sample("remover released", "LenCounter.SDiscount")
+			release(relA)
+			x.e.wg.Wait()
+			sample("adder released", "LenCounter.SCount")
+			unreached += x.e.unreach
+		}
+	}
+	w.Notes["counter_lag_samples"] = lagN
 	w.Notes["scripted_histories"] = n
 	w.Notes["scripted_yield_points_not_reached"] = unreached
 }
